@@ -744,3 +744,131 @@ Proof.
   replace (Q2R 0) with 0 in A by (unfold Q2R; simpl; field).
   replace (Q2R 2) with 2 in C by (unfold Q2R; simpl; field). lra.
 Qed.
+
+(* ================================================================ input representations
+   (Model/Sphere.v: in_format, fmtb, c14_repr_case).  Everything here is over Z and Q and uses no axiom. *)
+Lemma odd_part_spec n : exists j, (0 <= j)%Z /\ Zpos n = (Zpos (odd_part n) * 2 ^ j)%Z.
+Proof.
+  induction n as [n IH | n IH |]; cbn [odd_part].
+  - exists 0%Z. split; [lia | rewrite Z.pow_0_r; lia].
+  - destruct IH as [j [Hj Hn]]. exists (j + 1)%Z. split; [lia|].
+    rewrite Pos2Z.inj_xO, Hn, Z.pow_add_r, Z.pow_1_r by lia. ring.
+  - exists 0%Z. split; [lia | reflexivity].
+Qed.
+
+Lemma Qden1_inject (y : Q) : Pos.eqb (Qden y) 1 = true -> (y == inject_Z (Qnum y))%Q.
+Proof. destruct y as [a b]; cbn [Qden Qnum]. intro H. apply Pos.eqb_eq in H. subst. reflexivity. Qed.
+
+Theorem fmtb_sound p E M x : (0 <= p)%Z -> fmtb p E M x = true -> in_format p E M x.
+Proof.
+  unfold fmtb. intros Hp H. apply andb_true_iff in H. destruct H as [H H3].
+  apply andb_true_iff in H. destruct H as [H1 H2].
+  apply Qltb_lt in H3. split; [|exact H3].
+  apply Qden1_inject in H1.
+  assert (R : (x * inject_Z (2 ^ E) == inject_Z (Qnum (Qred (x * inject_Z (2 ^ E)))))%Q)
+    by (eapply Qeq_trans; [symmetry; apply Qred_correct | exact H1]).
+  clear H1. rename R into H1.
+  destruct (Qnum (Qred (x * inject_Z (2 ^ E)))) as [|n|n].
+  - exists 0%Z, 0%Z. split; [lia|]. split.
+    + change (Z.abs 0) with 0%Z. apply Z.pow_pos_nonneg; lia.
+    + rewrite H1. reflexivity.
+  - apply Z.ltb_lt in H2. destruct (odd_part_spec n) as [j [Hj Hn]].
+    exists (Zpos (odd_part n)), j. split; [exact Hj|]. split.
+    + rewrite Z.abs_eq by lia. exact H2.
+    + rewrite H1, Hn. reflexivity.
+  - apply Z.ltb_lt in H2. destruct (odd_part_spec n) as [j [Hj Hn]].
+    exists (Zneg (odd_part n)), j. split; [exact Hj|]. split.
+    + change (Z.abs (Zneg (odd_part n))) with (Zpos (odd_part n)). exact H2.
+    + rewrite H1. change (Z.neg n) with (- Z.pos n)%Z. rewrite Hn.
+      change (Z.neg (odd_part n)) with (- Z.pos (odd_part n))%Z.
+      rewrite Z.mul_opp_l. reflexivity.
+Qed.
+
+Lemma inject_Z_eq a b : a = b -> (inject_Z a == inject_Z b)%Q.
+Proof. intros ->. reflexivity. Qed.
+
+(* a wider format holds every value of a narrower one *)
+Theorem in_format_widen p E M p' E' M' x :
+  (p <= p')%Z -> (0 <= E <= E')%Z -> (M <= M')%Z -> (0 <= M)%Z ->
+  in_format p E M x -> in_format p' E' M' x.
+Proof.
+  intros Hp HE HM HM0 [[m [j [Hj [Hm Hx]]]] Hb]. split.
+  - exists m, (j + (E' - E))%Z. split; [lia|]. split.
+    + eapply Z.lt_le_trans; [exact Hm|].
+      destruct (Z.le_gt_cases 0 p) as [P|P].
+      * apply Z.pow_le_mono_r; lia.
+      * rewrite (Z.pow_neg_r 2 p) in Hm by lia. lia.
+    + replace (2 ^ E')%Z with (2 ^ E * 2 ^ (E' - E))%Z
+        by (rewrite <- Z.pow_add_r by lia; f_equal; lia).
+      rewrite inject_Z_mult, Qmult_assoc, Hx, <- inject_Z_mult.
+      apply inject_Z_eq. rewrite Z.pow_add_r by lia. ring.
+  - eapply Qlt_le_trans; [exact Hb|]. rewrite <- Zle_Qle. apply Z.pow_le_mono_r; lia.
+Qed.
+
+Theorem b16_in_b32 x : is_b16 x -> is_b32 x.
+Proof. apply in_format_widen; lia. Qed.
+Theorem b32_in_b64 x : is_b32 x -> is_b64 x.
+Proof. apply in_format_widen; lia. Qed.
+
+(* integers up to 2^p (inclusive) are values of a format of precision p *)
+Theorem int_in_format p E M n : (0 < p)%Z -> (0 <= E)%Z -> (p < M)%Z -> (Z.abs n <= 2 ^ p)%Z ->
+  in_format p E M (inject_Z n).
+Proof.
+  intros Hp HE HM Hn. split.
+  - destruct (Z.eq_dec (Z.abs n) (2 ^ p)) as [Heq | Hne].
+    + exists (Z.sgn n), (p + E)%Z. split; [lia|]. split.
+      * assert (1 < 2 ^ p)%Z by (apply Z.pow_gt_1; lia). destruct n; simpl; lia.
+      * rewrite <- inject_Z_mult. apply inject_Z_eq.
+        assert (Hs : n = (Z.sgn n * 2 ^ p)%Z) by (destruct n; simpl Z.sgn; simpl Z.abs in Heq; lia).
+        rewrite Hs at 1. rewrite Z.pow_add_r by lia. ring.
+    + exists n, E. split; [lia|]. split; [lia|]. rewrite <- inject_Z_mult. reflexivity.
+  - assert (2 ^ p < 2 ^ M)%Z by (apply Z.pow_lt_mono_r; lia).
+    unfold inject_Z, Qabs, Qlt; simpl. lia.
+Qed.
+
+Theorem int_in_b64 n : (Z.abs n <= 2 ^ 53)%Z -> is_b64 (inject_Z n).
+Proof. apply int_in_format; lia. Qed.
+
+(* an odd integer times a power of two is not m * 2^j with a shorter m *)
+Lemma odd_bound a m j E : Z.odd a = true -> (0 <= j)%Z -> (0 <= E)%Z ->
+  (a * 2 ^ E = m * 2 ^ j)%Z -> (Z.abs a <= Z.abs m)%Z.
+Proof.
+  intros Ha Hj HE H. destruct (Z.le_gt_cases j E) as [L | G].
+  - assert (K : (2 ^ E = 2 ^ (E - j) * 2 ^ j)%Z)
+      by (rewrite <- Z.pow_add_r by lia; f_equal; lia).
+    rewrite K, Z.mul_assoc in H. apply Z.mul_reg_r in H; [| apply Z.pow_nonzero; lia].
+    subst m. rewrite Z.abs_mul.
+    assert (0 < 2 ^ (E - j))%Z by (apply Z.pow_pos_nonneg; lia).
+    rewrite (Z.abs_eq (2 ^ (E - j))) by lia. pose proof (Z.abs_nonneg a). nia.
+  - exfalso.
+    assert (K : (2 ^ j = 2 * 2 ^ (j - E - 1) * 2 ^ E)%Z).
+    { replace j with (1 + (j - E - 1) + E)%Z at 1 by lia.
+      rewrite !Z.pow_add_r by lia. rewrite Z.pow_1_r. reflexivity. }
+    rewrite K, !Z.mul_assoc in H. apply Z.mul_reg_r in H; [| apply Z.pow_nonzero; lia].
+    subst a. rewrite <- Z.mul_assoc, (Z.mul_comm m), <- Z.mul_assoc in Ha.
+    rewrite Z.odd_mul in Ha. simpl in Ha. discriminate.
+Qed.
+
+(* narrowing is NOT the identity on values: a binary64 value that no binary32 value equals.
+   Primitives that run in the precision of a float32 input therefore cannot return the binary64
+   results the bounds of this property are about. *)
+Theorem narrowing_refuted : exists x, is_b64 x /\ ~ is_b32 x.
+Proof.
+  exists (inject_Z 16777217). split.
+  - apply int_in_b64. vm_compute. discriminate.
+  - intros [[m [j [Hj [Hm Hx]]]] _]. rewrite <- inject_Z_mult in Hx.
+    apply (proj1 (inject_Z_injective _ _)) in Hx.
+    apply odd_bound in Hx; [| reflexivity | lia | lia].
+    change (2 ^ 24)%Z with 16777216%Z in Hm. change (Z.abs 16777217) with 16777217%Z in Hx. lia.
+Qed.
+
+(* the harness test implies: the container holds the source values, which are binary64 values *)
+Theorem c14_repr_case_sound p E M src held : (0 <= p)%Z ->
+  c14_repr_case p E M src held = 0%nat ->
+  qlist_eqb held src = true /\ Forall (in_format p E M) src /\ Forall is_b64 held.
+Proof.
+  unfold c14_repr_case. intros Hp H. apply code3_zero in H. destruct H as (A & B & C).
+  split; [exact A|]. split; apply Forall_forall; intros x Hx.
+  - apply fmtb_sound; [exact Hp|]. rewrite forallb_forall in B. apply B; exact Hx.
+  - apply fmtb_sound; [lia|]. rewrite forallb_forall in C. apply C; exact Hx.
+Qed.
